@@ -40,6 +40,7 @@
 //! ```
 use ironplc_dsl::{
     common::*,
+    configuration::ConfigurationDeclaration,
     core::{Id, Located},
     diagnostic::{Diagnostic, Label},
     visitor::Visitor,
@@ -90,6 +91,19 @@ impl Visitor<Diagnostic> for SymbolTable<'_, Id, DummyNode> {
     ) -> Result<(), Diagnostic> {
         self.enter();
         self.add(&node.name, DummyNode {});
+        let ret = node.recurse_visit(self);
+        self.exit();
+        ret
+    }
+
+    fn visit_configuration_declaration(
+        &mut self,
+        node: &ConfigurationDeclaration,
+    ) -> Result<(), Diagnostic> {
+        // The global variables are declared in the scope of the configuration.
+        // Without a scope they would remain visible in every declaration
+        // that happens to be visited after the configuration.
+        self.enter();
         let ret = node.recurse_visit(self);
         self.exit();
         ret
